@@ -48,6 +48,11 @@ func parseRaceReports(txt string) [][2]raceAccess {
 			for _, fm := range frameRe.FindAllStringSubmatch(ms[i][3], -1) {
 				fn := fm[1]
 				a.frames = append(a.frames, fn)
+				if strings.HasPrefix(fn, "simrt.Atom") {
+					// the wrapper the instrumenter puts around the repository's atomic operations: the access is the
+					// repository's (a plain access on one side and an atomic one on the other is a race like any other)
+					continue
+				}
 				if a.owner == "" {
 					if c := classify(fn); c != "other" {
 						a.owner, a.class = fn, c
